@@ -19,7 +19,7 @@ import random
 
 from . import c19
 from .common import wire, backends, imapresp
-from .common.model import nats
+from .common.model import Model, nats
 from .common.report import Part, guarded
 
 NAMES = ['active', 'active', 'active', 'a', 'foo', 'Active', 'active ', 'café', 'dovecot.sieve', '../active']
@@ -68,7 +68,7 @@ def listing(got):
     return out
 
 
-async def md_case(part, r, key):
+async def md_case(part, r, key, m=None):
     from pymap.sieve.manage import ManageSieveServer
     base = backends.scratch_dir('pymap-verif-c19md-')
     log = []
@@ -77,6 +77,7 @@ async def md_case(part, r, key):
         config, login = await backends.make_maildir(base, users=[(u, p, ()) for u, p in c19.USERS])
         srv = ManageSieveServer(login, config)
         store = {i: ({}, [None]) for i in range(len(c19.USERS))}      # what was acknowledged: name -> bytes, active name
+        slot = {i: 'none' for i in range(len(c19.USERS))}             # the SieveSingle model's slot per user
         nontrivial = False
         for ci in range(r.choice([1, 2, 3])):
             c = wire.Client(srv)
@@ -118,6 +119,19 @@ async def md_case(part, r, key):
                     continue
                 d, act = store[user]
                 ok = got == 'OK' or got.startswith(('SCRIPT:', 'LIST:'))
+                if m is not None and k in ('put', 'get', 'list', 'setactive', 'delete', 'rename', 'check', 'havespace'):
+                    # tie: the reply and the slot of the SieveSingle model (C19_single_put_get, _refused_unchanged, _reads, _no_ghosts)
+                    nb = lambda x: nats(c19.nbytes(x))       # noqa: E731
+                    mtok = {'put': lambda: f'put:{nb(op[1])}:{nats(op[2])}', 'get': lambda: f'get:{nb(op[1])}', 'list': lambda: 'list',
+                            'setactive': lambda: 'setactive:' + ('none' if op[1] is None else nb(op[1])), 'delete': lambda: f'delete:{nb(op[1])}',
+                            'rename': lambda: f'rename:{nb(op[1])}:{nb(op[2])}', 'check': lambda: f'check:{nats(b"keep;")}:1', 'havespace': lambda: 'havespace:-:10'}[k]()
+                    mod = m.ask(f'sieve1 1000000000 {slot[user]} {mtok}')
+                    mreply, mslot = mod.rsplit('|', 1)
+                    part.stat('md-sieve-tie')
+                    impl = got if not got.startswith('NO:') or got[3:] in ('QUOTA/MAXSIZE', 'NONEXISTENT', 'ACTIVE', 'ALREADYEXISTS', 'Bad command.') else 'NO:'
+                    if impl != mreply:
+                        part.violation('correspondence', f'C19 maildir: {w[:50]!r} answered {impl[:80]}, the SieveSingle model {mreply[:80]} (slot {slot[user][:40]})', case, signature='md-sieve-model')
+                    slot[user] = mslot
                 if k == 'unauth':
                     if ok:
                         user = None
@@ -195,7 +209,11 @@ def worker(job):
     seed, n = job
     r = random.Random(seed)
     part = Part()
-    for k in range(n):
-        with guarded(part, 'C19 maildir', dict(scenario='sieve-maildir', seed=seed, k=k)):
-            asyncio.run(md_case(part, r, f'md:{seed}:{k}'))
+    m = Model()
+    try:
+        for k in range(n):
+            with guarded(part, 'C19 maildir', dict(scenario='sieve-maildir', seed=seed, k=k)):
+                asyncio.run(md_case(part, r, f'md:{seed}:{k}', m))
+    finally:
+        m.close()
     return part.result()
